@@ -6,6 +6,10 @@ TOUR = [
     # one-line IF, after a label line, in a loop written on one line
     'X% = 2: Y% = 3: PRINT X%; Y%\r\nIF X% = 1 THEN PRINT "one": PRINT "still one" ELSE PRINT "two": PRINT "still two"\r\n'
     'IF Y% = 3 THEN X% = 5: PRINT "set"\r\nFOR I% = 1 TO 2: PRINT I%: NEXT\r\nWHILE X% > 3: X% = X% - 1: WEND\r\nPRINT X%: PRINT "end"\r\n',
+    # parentheses and signs next to keywords: bounds, conditions, arguments
+    'FOR I% = (1) TO (7) STEP (3)\r\nPRINT (I%); -(I%) + (2)\r\nNEXT\r\nIF (I%) > (5) THEN PRINT (1) ELSE PRINT (2)\r\n'
+    'WHILE (I%) > (9)\r\nI% = (I%) - (1)\r\nWEND\r\nSELECT CASE (I%)\r\nCASE (9), (10) TO (12)\r\nPRINT "nine"\r\nCASE IS > (20)\r\nPRINT "big"\r\nEND SELECT\r\n'
+    'DIM Q((2) TO (4))\r\nQ((3)) = (5)\r\nPRINT Q(3); LEN(STR$((7)))\r\n',
     # DEFtype letter ranges
     'DEFINT A-Z\r\nDEFSTR S\r\nDEFLNG L-M, P\r\nDEFSNG X\r\nDEFDBL D-E\r\nA = 3\r\nS = "x"\r\nL = 70000\r\nD = 2.5\r\nPRINT A; S; L; D\r\n',
     # parameterless SUB calls and statements that are a single word
